@@ -48,12 +48,14 @@ Diagnose(h, dst, sh, hops) ==
 TrAt ==
   /\ IsEvent("At") /\ Ev.wf
   /\ at' = [h \in Hosts |-> <<Ev.args.at[h][1], Ev.args.at[h][2]>>]
+  \* the options the controller component was launched with (the switches have just connected)
+  /\ opt' = [hold |-> Ev.args.hold, transp |-> Ev.args.transp, up |-> 0]
   /\ UNCHANGED <<seen, ctl, flows, bufs>> /\ Quiet
 
 TrMove ==
   /\ IsEvent("Move")
   /\ at' = [at EXCEPT ![Ev.args.h] = <<Ev.args.s, Ev.args.p>>]
-  /\ UNCHANGED <<seen, ctl, flows, bufs>> /\ Quiet
+  /\ UNCHANGED <<seen, ctl, flows, bufs, opt>> /\ Quiet
 
 TrSend ==
   /\ IsEvent("Send")
